@@ -6,9 +6,7 @@ export GOFLAGS=-mod=mod GOPROXY=off GOSUMDB=off GOTOOLCHAIN=local CGO_ENABLED=0
 mkdir -p .bin .work evidence replays
 cp /repo/go.sum harness/go.sum
 (cd harness && go build -tags verif -o ../.bin/sfimpl ./cmd/sfimpl)
-if [ -d harness/cmd/sffacts ]; then
-  (cd harness && go build -o ../.bin/sffacts ./cmd/sffacts)
-  ./.bin/sffacts -repo /repo -out lean/SF/Gen
-fi
-(cd lean && lake build SF sfmodel)
+(cd facts && go build -o ../.bin/sffacts ./cmd/sffacts)
+./.bin/sffacts -repo /repo -out lean/SF/Gen
+(cd lean && lake build SF SF.GenCheck sfmodel)
 echo setup ok
